@@ -509,6 +509,65 @@ def euler_defs(m4, v3):
     return out
 
 
+def axis_defs(qh, m4, v3):
+    """axis-angle conversions: Vec3_::length, Quaternion_::fromAxisAngle(axis, angle) / fromAxisAngleU / fromAxisAngle(v),
+    angle(), axisAngle(), Matrix4_::rotate(axis, angle), rotate(axisAngle), Matrix4_::axisAngle().
+    Statement skeletons are matched literally, scalar sub-expressions go through the expression parser."""
+    out = []
+    V = Env(scalars={"x": "a.x", "y": "a.y", "z": "a.z"})
+    b = body_of(v3, r"T length\(\) const\s*\{", "Vec3_::length")
+    m = must(r"return (sqrt\(.*\));", b, "Vec3_::length")
+    out.append("/-- `Vec3_::length()` -/\ndef length (F : Fld K) (C : Cmp K) (a : V3 K) : K :=\n  %s\n" % emit(parse_expr(m.group(1)), V))
+    b = body_of(v3, r"friend Vec3_ operator\*\(T r, const Vec3_& b\)\s*\{", "operator*(T, Vec3_)")
+    must(r"return b\*r;", b, "operator*(T, Vec3_)")
+    if not re.search(r"Quaternion_\(T w, const Vec3_<T>& v\) : w\(w\), x\(v\.x\), y\(v\.y\), z\(v\.z\) \{\}", norm(qh)):
+        raise TranslateError("Quaternion_(T w, const Vec3_<T>& v) changed")
+    out.append("/-- `Quaternion_(T w, const Vec3_<T>& v)` -/\ndef ofScalarVec (w : K) (v : V3 K) : Quat K := Quat.mk w v.x v.y v.z\n")
+    A = Env(scalars={"angle": "angle", "m": "m", "w": "p.w", "a": "a", "PI": "T.pi"})
+    ex = lambda x: emit(parse_expr(x), A)
+    cd = lambda x: emit_cond(parse_cond(x), A)
+    b = body_of(qh, r"static Quaternion_ fromAxisAngle\(const Vec3_<T>& axis, T angle\)\s*\{", "Quaternion_::fromAxisAngle(axis, angle)")
+    m = must(r"T m = axis\.length\(\); return Quaternion_\((.*?), \(\(m != 0\) \? (.*?) : 0\) \* axis\);", b, "Quaternion_::fromAxisAngle(axis, angle)")
+    out.append("/-- `Quaternion_::fromAxisAngle(axis, angle)`; `r * axis` is `axis * r` (`friend operator*(T, Vec3_)`) -/\n"
+               "def fromAxisAngle (F : Fld K) (C : Cmp K) (T : Trig K) (axis : V3 K) (angle : K) : Quat K :=\n"
+               "  let m := length F C axis\n"
+               "  ofScalarVec %s (Gen.V3.smul F axis (if C.eqz m then F.lit 0 else %s))\n" % (ex(m.group(1)), ex(m.group(2))))
+    b = body_of(qh, r"static Quaternion_ fromAxisAngleU\(const Vec3_<T>& axis, T angle\)\s*\{", "Quaternion_::fromAxisAngleU")
+    m = must(r"return Quaternion_\((cos\(.*?\)), (sin\(.*?\)) \* axis\);", b, "Quaternion_::fromAxisAngleU")
+    out.append("/-- `Quaternion_::fromAxisAngleU(axis, angle)` (axis of length one) -/\n"
+               "def fromAxisAngleU (F : Fld K) (T : Trig K) (axis : V3 K) (angle : K) : Quat K :=\n"
+               "  ofScalarVec %s (Gen.V3.smul F axis %s)\n" % (ex(m.group(1)), ex(m.group(2))))
+    b = body_of(qh, r"static Quaternion_ fromAxisAngle\(const Vec3_<T>& v\)\s*\{", "Quaternion_::fromAxisAngle(v)")
+    must(r"return fromAxisAngle\(v, v\.length\(\)\);", b, "Quaternion_::fromAxisAngle(v)")
+    out.append("/-- `Quaternion_::fromAxisAngle(v)` (rotation vector) -/\n"
+               "def fromRotVec (F : Fld K) (C : Cmp K) (T : Trig K) (v : V3 K) : Quat K :=\n  fromAxisAngle F C T v (length F C v)\n")
+    b = body_of(qh, r"T angle\(\) const\s*\{", "Quaternion_::angle")
+    m = must(r"T a = \((.*?)\) \? 0 : \((.*?)\) \? \((.*?)\) : (.*?); return (.*?) \? a : (.*?);", b, "Quaternion_::angle")
+    g = m.groups()
+    out.append("/-- `Quaternion_::angle()` -/\ndef angle (F : Fld K) (C : Cmp K) (T : Trig K) (p : Quat K) : K :=\n"
+               "  let a := if %s then F.lit 0 else if %s then %s else %s\n  if %s then a else %s\n"
+               % (cd(g[0]), cd(g[1]), ex(g[2]), ex(g[3]), cd(g[4]), ex(g[5])))
+    b = body_of(qh, r"Vec3_<T> axisAngle\(\) const\s*\{", "Quaternion_::axisAngle")
+    must(r"Vec3_<T> v\(x, y, z\); T k = v\.length\(\); return \(k == 0\) \? Vec3_<T>\(0, 0, 0\) : v \* \(angle\(\) / k\);", b, "Quaternion_::axisAngle")
+    out.append("/-- `Quaternion_::axisAngle()` -/\ndef axisAngle (F : Fld K) (C : Cmp K) (T : Trig K) (p : Quat K) : V3 K :=\n"
+               "  let v := V3.mk p.x p.y p.z\n  let k := length F C v\n"
+               "  if C.eqz k then V3.mk (F.lit 0) (F.lit 0) (F.lit 0) else Gen.V3.smul F v (F.div (angle F C T p) k)\n")
+    b = body_of(m4, r"inline Matrix4_<T> Matrix4_<T>::rotate\(const Vec3_<T>& axis, T angle\)\s*\{", "Matrix4_::rotate(axis, angle)")
+    must(r"return Quaternion_<T>::fromAxisAngle\(axis, angle\)\.matrix\(\);", b, "Matrix4_::rotate(axis, angle)")
+    out.append("/-- `Matrix4_::rotate(const Vec3_<T>& axis, T angle)` -/\n"
+               "def rotateAA (F : Fld K) (C : Cmp K) (T : Trig K) (axis : V3 K) (angle : K) : Nat → Nat → K :=\n"
+               "  Gen.Q.matrix F (fromAxisAngle F C T axis angle)\n")
+    b = body_of(m4, r"static Matrix4_ rotate\(const Vec3_<T>& axisAngle\)\s*\{", "Matrix4_::rotate(axisAngle)")
+    must(r"return rotate\(axisAngle, axisAngle\.length\(\)\);", b, "Matrix4_::rotate(axisAngle)")
+    out.append("/-- `Matrix4_::rotate(const Vec3_<T>& axisAngle)` -/\n"
+               "def rotateVec (F : Fld K) (C : Cmp K) (T : Trig K) (v : V3 K) : Nat → Nat → K :=\n  rotateAA F C T v (length F C v)\n")
+    b = body_of(m4, r"inline Vec3_<T> Matrix4_<T>::axisAngle\(\) const\s*\{", "Matrix4_::axisAngle")
+    must(r"return rotation\(\)\.axisAngle\(\);", b, "Matrix4_::axisAngle")
+    out.append("/-- `Matrix4_::axisAngle()` -/\n"
+               "def matAxisAngle (F : Fld K) (C : Cmp K) (T : Trig K) (a : Nat → Nat → K) : V3 K :=\n  axisAngle F C T (Gen.M4.rotation F C a)\n")
+    return out
+
+
 def translate(repo):
     m4 = cparse.read(repo, "include/asl/Matrix4.h").replace("\r\n", "\n")
     m3 = cparse.read(repo, "include/asl/Matrix3.h").replace("\r\n", "\n")
@@ -601,4 +660,7 @@ def translate(repo):
     m = must(r"return (.*);", b, "Vec3_::length2")
     out.append("/-- `Vec3_::length2()` -/\ndef length2 (F : Fld K) (a : V3 K) : K :=\n  %s\n" % emit(parse_expr(m.group(1)), V))
     files["Gen/Vec3Gen.lean"] = (HEADER % ("include/asl/Vec3.h", "Gen.V3")) + "\n".join(out) + "\nend Gen.V3\n"
+    hdr = HEADER.replace("import AslModel.Fld\n", "import AslModel.Fld\nimport Gen.Vec3Gen\nimport Gen.QuatGen\nimport Gen.Matrix4Gen\n")
+    files["Gen/AxisAngleGen.lean"] = (hdr % ("include/asl/Quaternion.h, Matrix4.h, Vec3.h (axis-angle conversions)", "Gen.AA")) + \
+        "\n".join(axis_defs(qh, m4, v3)) + "\nend Gen.AA\n"
     return files
